@@ -14,15 +14,19 @@ def replay_e1(p):
     expect = {int(k): v for k, v in p.get('expect', {}).items()}
     obs = []
     for _ in range(2):
-        ex = harness.run_execution(scn, dev, expect=expect)
-        finds = monitors.run_monitors(ex)
+        if scn.get('runner'):
+            from . import runners
+            ex, finds = runners.RUNNERS[scn['runner']](scn, dev, expect, monitors.SWEEP_MONITORS)
+        else:
+            ex = harness.run_execution(scn, dev, expect=expect)
+            finds = monitors.run_monitors(ex)
         obs.append((sorted(k for _, k, _ in finds), harness.h8(harness.canon_result(ex.result)), repr(ex.exc)))
     if obs[0] != obs[1]:
         print("HARNESS-ERROR: two replays of the same choice list differ", obs)
         return 2
     keys = obs[0][0]
     print(f"scenario {scn}\nchoice list {sorted(dev.items())}\nfindings {keys}")
-    return 1 if p['key'] in keys else 0
+    return 1 if any(p['key'].endswith(k) for k in keys) else 0
 
 
 def main(argv=None):
